@@ -91,6 +91,13 @@ func (ioc *IO) Register(slot *internal.Slot) {
 }
 
 func (ioc *IO) Deregister(slot *internal.Slot) {
+	if slot.Events != 0 {
+		// The object still has an operation registered with the poller (for example a read, when the write that has
+		// just completed asks to be de-registered): the registration is what keeps the object and its callbacks
+		// reachable, so it stays until the last interest is gone.
+		return
+	}
+
 	if slot.Fd >= len(ioc.pending.static) {
 		delete(ioc.pending.dynamic, slot.Fd)
 	} else {
